@@ -289,6 +289,9 @@ pub fn run(case: &SessionCase, tag: u64) -> Outcome {
                 }
                 out.log.extend_from_slice(&srec.loghash.to_le_bytes());
                 let sys_kind: Option<SysKind> = sys.filter(|_| srec.fired).map(|f| f.kind);
+                if std::env::var("SIM_DEBUG_SYSLOG").is_ok() {
+                    eprintln!("---- compile at step {idx}: {} libc calls\n{}", srec.calls, srec.log);
+                }
                 out.sys_logs.push(srec.log.clone());
                 if srec.calls > 0 {
                     bump(&mut c, "compiles_with_numbered_syscalls");
